@@ -535,7 +535,8 @@ Inductive gstep : screen -> screen -> Prop :=
   | g_pending : forall v s, gstep s (set_pending v s)
   | g_unlisten : forall s, gstep s (set_listening false (set_fds (remove_fd LISTEN_FD (s_allfds s)) (s_maxfd s) s))
   | g_add : forall pre po s, gstep s (add_conn pre po s)
-  | g_hook : forall k s c, live s k = Some c -> l_new (c_life c) = 0%nat -> gstep s (run_new_hook k s).
+  | g_hook : forall k s c, live s k = Some c -> l_new (c_life c) = 0%nat -> gstep s (run_new_hook k s)
+  | g_dead : forall s, gstep s (dead_conn s).
 
 Inductive reach : screen -> screen -> Prop :=
   | r_refl : forall s, reach s s
@@ -596,6 +597,18 @@ Proof.
     + destruct L as (A & B & C). destruct (C Hfr) as [G X].
       unfold life_ok, hook_life; simpl. rewrite H0. repeat split; auto; intros; congruence.
     + auto.
+  - (* rfbSetNonBlocking failed: a record that is closed once and already gone *)
+    destruct I as [HF [HN HO]]. set (k := length (s_conns s)). split.
+    + simpl. apply Forall_app. split; auto. constructor; auto.
+      unfold conn_ok, dead_conn_rec; simpl. split; [|split; auto].
+      unfold life_ok; simpl. repeat split; auto; intros; discriminate.
+    + split; [exact HN|]. intros j. simpl. rewrite HO. unfold get. simpl. split.
+      * intros [c [Hc Hf]]. exists c. split; auto. rewrite nth_error_app1; auto. apply nth_error_Some. congruence.
+      * intros [c [Hc Hf]]. destruct (Nat.lt_ge_cases j (length (s_conns s))) as [Hlt|Hge].
+        -- rewrite nth_error_app1 in Hc by auto. exists c. auto.
+        -- rewrite nth_error_app2 in Hc by auto. destruct (j - length (s_conns s))%nat as [|n].
+           ++ simpl in Hc. inversion Hc; subst c. simpl in Hf. discriminate.
+           ++ simpl in Hc. destruct n; discriminate.
 Qed.
 
 Lemma reach_inv : forall s s', reach s s' -> inv s -> inv s'.
@@ -727,6 +740,12 @@ Proof.
   - eapply (G_k k); [|exact H2]. fin.
 Qed.
 
+Lemma G_accept_or_fail : forall d pre po s0 x, reach s0 x -> reach s0 (accept_or_fail d pre po x).
+Proof.
+  intros d pre po s0 x H. unfold accept_or_fail. destruct d; try (apply G_accept; auto).
+  eapply r_step; [exact H | apply g_dead].
+Qed.
+
 Lemma G_client_loop : forall rd s0 x, reach s0 x -> reach s0 (client_loop rd x).
 Proof.
   intros. unfold client_loop. apply G_fold; auto. intros y j Hy.
@@ -738,8 +757,8 @@ Proof.
   intros. unfold check_fds.
   destruct (if s_listening x then s_pending x else []) as [|[[d pre] po] rest].
   - dm; auto. apply G_client_loop; auto.
-  - assert (reach s0 (accept d pre po (set_pending rest x))).
-    { apply G_accept. eapply r_step; [exact H | apply g_pending]. }
+  - assert (reach s0 (accept_or_fail d pre po (set_pending rest x))).
+    { apply G_accept_or_fail. eapply r_step; [exact H | apply g_pending]. }
     dm; auto. apply G_client_loop; auto.
 Qed.
 
@@ -753,7 +772,7 @@ Lemma G_step : forall o s0 x, reach s0 x -> reach s0 (step x o).
 Proof.
   intros o s0 x H. unfold step. destruct (s_hung x || s_cleaned x); auto.
   destruct o.
-  - apply G_accept; auto.
+  - apply G_accept_or_fail; auto.
   - eapply r_step; [exact H | apply g_pending].
   - eapply (G_k k); [|exact H]. fin.
   - eapply (G_k k); [|exact H]. fin.
@@ -959,6 +978,7 @@ Proof.
   - eapply bstep_nh; eauto.
   - destruct N as (Hh & HL). split; auto. unfold locks_clear. simpl. apply Forall_app. split; auto.
   - destruct N as (Hh & HL). split; auto. unfold locks_clear, run_new_hook. simpl. apply Forall_upd; auto.
+  - destruct N as (Hh & HL). split; auto. unfold locks_clear. simpl. apply Forall_app. split; auto.
 Qed.
 
 Lemma reach_nh : forall s s', reach s s' -> NH s -> NH s'.
@@ -1114,6 +1134,7 @@ Proof.
   - destruct (Nat.eq_dec j k) as [->|Hn].
     + destruct (live_some _ _ _ H) as [Hg Hnf]. rewrite Hg in Hc. inversion Hc; subst. congruence.
     + unfold run_new_hook, get. simpl. rewrite nth_upd_other; auto.
+  - unfold dead_conn, get. simpl. rewrite nth_error_app1; auto. apply nth_error_Some. unfold get in Hc. congruence.
 Qed.
 
 Lemma reach_freed_stays : forall s s', reach s s' -> forall j c, get s j = Some c ->
@@ -1253,6 +1274,13 @@ Proof.
     + rewrite nth_upd_same in Hc. unfold get in Hg. rewrite Hg in Hc. simpl in Hc. inversion Hc; subst c'. simpl.
       apply (I k c); auto.
     + rewrite nth_upd_other in Hc by auto. apply (I j c'); auto.
+  - (* rfbSetNonBlocking failed *) intros j c Hc. unfold dead_conn, get in Hc. simpl in Hc.
+    destruct (Nat.lt_ge_cases j (length (s_conns s))) as [Hlt|Hge].
+    + rewrite nth_error_app1 in Hc by auto. apply (I j c Hc).
+    + rewrite nth_error_app2 in Hc by auto. destruct (j - length (s_conns s))%nat as [|n] eqn:Ej.
+      * simpl in Hc. inversion Hc; subst c. assert (j = length (s_conns s)) by lia. subst j.
+        simpl. split; auto. intros; discriminate.
+      * simpl in Hc. destruct n; discriminate.
 Qed.
 
 Lemma reach_fd : forall s s', reach s s' -> fd_inv s -> fd_inv s'.
@@ -1644,6 +1672,11 @@ Proof.
   - (* newClientHook *)
     eapply rc_same with (k := k); [exact I | reflexivity | reflexivity | reflexivity | ].
     intros c0 _. unfold uses_un, uses_sc, sel_ok, islive; simpl. repeat split; auto.
+  - (* rfbSetNonBlocking failed: nobody's user *)
+    destruct I as (R1 & R2 & R3 & R4). unfold rc_inv, dead_conn. simpl. repeat split; auto.
+    + rewrite cnt_app. rewrite R1. unfold uses_un, islive. simpl. lia.
+    + intros w h r Hr. rewrite cnt_app. rewrite (R2 w h r Hr). unfold uses_sc, islive. simpl. lia.
+    + apply Forall_app. split; auto. constructor; auto. intros A. unfold islive in A. simpl in A. discriminate.
 Qed.
 
 Lemma reach_rc : forall s s', reach s s' -> rc_inv s -> rc_inv s'.
@@ -1700,6 +1733,24 @@ Proof.
   intros k c Hg. apply (torn_down_after_cleanup cfg ops Hc k c Hg).
 Qed.
 
+(* ---- rfbSetNonBlocking fails on a new descriptor: one close, nothing kept, nothing else touched *)
+Theorem nonblock_failure_outcome : forall cfg ops pre po,
+  let s0 := run cfg ops in
+  let s := run cfg (ops ++ [OAccept DNonblock pre po]) in
+  s_cleaned s0 = false ->
+  (exists c, get s (length (s_conns s0)) = Some c /\ l_freed (c_life c) = true /\ l_close (c_life c) = 1%nat /\
+             l_new (c_life c) = 0%nat /\ l_gone (c_life c) = 0%nat /\ p_res (c_proto c) = [] /\ c_leak c = []) /\
+  s_ref s = s_ref s0 /\ s_scaled s = s_scaled s0 /\ s_order s = s_order s0 /\
+  s_allfds s = s_allfds s0 /\ s_maxfd s = s_maxfd s0 /\ s_ioc s = s_ioc s0 /\
+  (forall j c, get s0 j = Some c -> get s j = Some c).
+Proof.
+  intros cfg ops pre po s0 s Hc. unfold s. rewrite run_app. simpl. fold s0. unfold step.
+  rewrite (never_blocks cfg ops : s_hung s0 = false), Hc. simpl. split; [|repeat split; auto].
+  - eexists. split; [unfold get, dead_conn; simpl; rewrite nth_error_app2, Nat.sub_diag by auto; reflexivity|].
+    simpl. repeat split; auto.
+  - intros j c Hg. unfold get, dead_conn. simpl. rewrite nth_error_app1; auto. apply nth_error_Some. unfold get in Hg. congruence.
+Qed.
+
 Theorem teardown_frame : forall k j s, j <> k ->
   get (close_client k s) j = get s j /\ get (connection_gone k s) j = get s j.
 Proof.
@@ -1742,6 +1793,12 @@ Definition cfg_ft : config := mkConfig 8 8 false false false false false true.
 Definition ver38 : list Z := [82; 70; 66; 32; 48; 48; 51; 46; 48; 48; 56; 10]%Z.
 Definition ft_request : list Z := ([7; 3; 0; 0; 0; 0; 0; 0; 0; 0; 0; 16] ++ existing_file)%Z.
 Definition hs (k : nat) : list op := [OIn k ver38; OPe; OIn k [1%Z]; OPe; OIn k [1%Z]; OPe].
+
+Lemma nonblock_listen_nonvacuous :
+  let s := run cfg0 [OAccept DAccept [] true; OLAccept DNonblock [] true; OPe; OShutdown] in
+  length (s_conns s) = 2%nat /\ s_ref s = 0%Z /\
+  exists c, get s 1%nat = Some c /\ l_freed (c_life c) = true /\ l_close (c_life c) = 1%nat /\ l_new (c_life c) = 0%nat.
+Proof. vm_compute. repeat split. eexists. repeat split. Qed.
 
 Lemma idle_nonvacuous :
   let s := run cfg0 ([OAccept DAccept [] true; OAccept DAccept [] true; OPeerClose 0] ++ [OPe]) in
